@@ -168,6 +168,18 @@ CLAIMS = {
         note="Trusted: Lean kernel/standard axioms; the translator's SSA construction, callee summaries and its numpy view/copy/mutator classification table (validated by the dynamic "
              "passes); harness. Positions shared by reference between derived lattices are allowed by the property and visible in the IR as aliases.",
         ref="§7 C15"),
+    "C19": dict(
+        technique="Lean 4 proof (loop invariant of the dart-throwing fold for every stream of draws; effect-IR obligations for RNG non-interference) + replay of recorded draws through the model",
+        text="Kernel-checked: modelling bluenoise as a fold over the stream of random draws, for every stream, every k and every grid shape all samples lie in [0,nx]×[0,ny] (normalised: "
+             "unit square) and are pairwise more than one grid spacing apart; samples are only appended; each iteration adds a sample or retires an active one; hyperuniform's crop "
+             "returns a sub-list strictly inside the unit square. For bluenoise, hyperuniform and uniform the effect programs regenerated from the source contain no global-RNG atom "
+             "(kernel-checked `noGlobalRng`, meaning by C15.noGlobalRng_sound) and write to no argument. The generator handed to bluenoise is wrapped by a recording proxy and the "
+             "recorded draws are replayed through the exact model, which must return the same samples; unit square, spacing, exact counts, reproducibility under a differently seeded "
+             "global state, untouched global state and a per-call time limit are evaluated on the implementation over k, (nx,ny) in 1..12², seeds.",
+        note="Trusted: Lean kernel/standard axioms; translator; numpy Generator reproducibility; harness. Termination of the loop and 'reaches within two spacings of all four sides for "
+             "k ≥ 20' are probabilistic and cannot be theorems over all streams; the latter is judged over 5 seeds. Known finding K2 (open): the reach clause fails for domains one grid "
+             "spacing wide (≈45% of seeds at 12×1, k=20). cos/sin of the candidate generation are computed by numpy in the harness exactly as in the implementation (recorded, not modelled).",
+        ref="§7 C19"),
 }
 
 PENDING_REASON = "check not built yet in this revision (work in progress; see DESIGN.md §7 for the planned Lean model and tie)"
